@@ -520,6 +520,9 @@ def gen_duart(prefix, tier, seed, nq, nt, flavour):
                     ops += ['rb:%x' % (0x200007 + ch), 'wb:%x:%x' % (0x20000f + ch, dg.byte())]
                 if r.random() < 0.2:
                     ops += ['rb:%x' % (0x200007 + ch), 'rb:%x' % (0x20000f + ch)]
+                if r.random() < 0.12:
+                    # commands from a per-character handler: re-arm the receiver / transmitter, reset the error status
+                    ops += ['wb:%x:%x' % (0x20000b + ch, r.choice([0x01, 0x05, 0x45, 0x04, 0x15]))]
                 mult = r.choice([1, 1, 1, 10, 100, 1000]) if gran < 100000 else 1
                 dg.adv(ops, gran * mult)
                 ops += ['gi', 'ds']
@@ -601,6 +604,19 @@ def gen_c14(tier, seed):
 
 def gen_c17(tier, seed):
     g = gen_duart('i', tier, seed, 1200, 30000, 'c17')
+    r = g.rnd
+    # the vertical-blank tick while the processor runs with interrupts masked (priority level 15): the 1/60 s deadline
+    # must keep advancing whatever the processor's level is (a sled of NOPs stepped at 0.1 - 2 ms per instruction)
+    for i in range(24 if tier == 'quick' else 400):
+        tick = r.choice([100000, 500000, 1000000, 2000000])
+        nsteps = r.choice([20, 40, 90, 200])
+        ops = ['ld:700100:%s' % ('70' * 240), 'r:f:700100', 'r:b:%x' % ((15 << 13) | r.choice([0, 0x3c0000])), 'r:c:730000',
+               'k:%x' % tick]
+        for _ in range(4):
+            ops += ['run:%x' % (nsteps // 4), 'ds']
+            if r.random() < 0.3:
+                ops += ['rb:200013', 'ds']
+        g.add(ops, 'c17-vblank-masked')
     return g.result('Pacing runs: every clock-select code (0-15) x both baud sets x both channels x both directions, time '
                     'advanced at granularities from 50 ns to 4 ms, snapshot after every service call.')
 
